@@ -18,7 +18,13 @@ def check_pubkey_deser(ctx, rule):
         return
     b = body_of(fx, df[0]["key"])
     ctx.touch_body(b)
-    ctors = [(i, t) for (i, t) in b.calls() if (callee_name(t) or "").startswith("crypto::PublicKey::from_") or callee_name(t) == "crypto::PublicKey::new"]
+    # constructors: local functions returning Result<PublicKey, _> / PublicKey (public from_* entry points, or the private constructor)
+    def _is_ctor(t):
+        k = t.get("resolved_key") or t.get("callee_key")
+        f = fx.fns.get(k)
+        return bool(f) and f["kind"] in ("Fn", "AssocFn") and not f.get("impl_trait") and "crypto::PublicKey" in f["locals"][0]["ty"] \
+            and f["locals"][0]["ty"].replace("std::result::Result<", "").startswith("crypto::PublicKey")
+    ctors = [(i, t) for (i, t) in b.calls() if _is_ctor(t)]
     if not ctors:
         ctx.bad(rule, "PublicKey decoder", "no constructor call found in PublicKey::deserialize")
         return
@@ -44,6 +50,15 @@ def check_pubkey_deser(ctx, rule):
     writes = [d for d in b.defs.values() for x in d if x.kind == "assign" and any(isinstance(e, dict) and e.get("of", "").startswith("crypto::PublicKey::") for e in x.node["dst"]["p"])]
     ctx.inst(rule, "decoded key is the constructor's result, unmodified", okp and not writes,
              "Ok payload <- {%s}; field assignments to a PublicKey in the decoder: %d" % (", ".join(leaf_s(b, l) for l in lv), len(writes)), df[0]["at"])
+
+
+def find_shim_fn(fx):
+    """The function that builds the wire form of a public key, by role: the hand-written local function (not a trait impl
+    method) that calls shims::PublicKey::new."""
+    c = [f for f in fx.doc["fns"] if f["kind"] in ("Fn", "AssocFn") and not f.get("exp") and not f.get("impl_trait") and
+         any(b["term"] and b["term"]["k"] == "call" and not b["cleanup"] and callee_name(b["term"]) == "interchange::cjson::shims::PublicKey::new"
+             for b in f["blocks"])]
+    return c[0] if len(c) == 1 else None
 
 
 def check_key_table_filter(ctx, rule):
